@@ -2,7 +2,7 @@
    pre-state), and judges the implementation's outputs with the specification oracles. *)
 From Coq Require Import Ascii String.
 From WF Require Import Base.Bytes Base.Utf8 Spec.Route Spec.Walk Spec.Grammar Spec.Oracles Spec.Registry Spec.Inv.
-From WF Require Import Model.Tree Model.Parser Model.Ops Model.Router Model.Display Model.Render Model.Constraints.
+From WF Require Import Model.Tree Model.Parser Model.Ops Model.Router Model.Display Model.Render Model.Constraints Model.Arcs.
 From WF Require Import Check.Tokens Check.Events.
 
 Inductive fkind :=
@@ -14,7 +14,7 @@ Inductive fkind :=
 | FWalkGenuine | FWalkMissed | FWalkPriority | FGreedy
 | FSpecInsert | FSpecDelete | FSpecConstraint
 | FNoop | FRoundtrip | FInterfere | FNotRouted | FSame | FDumpOf
-| FBuiltin | FOci | FOciModel | FOciName | FUnknownRouter.
+| FBuiltin | FOci | FOciModel | FOciName | FUnknownRouter | FArcs.
 
 Definition finding := (fkind * list bytes)%type.
 
@@ -580,18 +580,76 @@ Definition step (s : state) (e : event) : state * list finding :=
   | EvParse t r rd => (s, check_parse t r rd)
   | EvBuiltin n v a b => (s, fl (Bool.eqb a b) FBuiltin [n; v])
   | EvOci _ _ _ => (s, [])
+  | EvArcs _ => (s, [])
   | EvEnd => ([], [])
   end.
 
-Definition step_line (s : state) (line : bytes) : state * list finding :=
+(* ---- the family level: reference counts of the shared data (Model/Arcs.v) ---- *)
+Record fstate := FSt {
+  fs_routers : state;
+  fs_arcs : aview;              (* the implementation's last view *)
+  fs_pending : aop;             (* what the call since then does to it, by the model *)
+  fs_ret : option bool }.       (* for a delete that reached the removal loop: did it hand the data back? *)
+Definition init_fstate : fstate := FSt [] [] ANop None.
+
+Definition shared_nodes (t : bytes) (n : node) : nat :=
+  length (filter (fun ri : route * info =>
+                    beqb (i_template (snd ri)) t && match i_expanded (snd ri) with Some _ => true | None => false end)
+                 (routes_of n)).
+
+Definition pending_of (s : state) (e : event) : option (aop * option bool) :=
+  match e with
+  | EvNew rid => Some (ANew rid, None)
+  | EvClone a b => Some (AClone a b, None)
+  | EvInsert rid t _ r _ dump _ =>
+    Some (match r with
+          | ROk _ => match shared_nodes t dump with O => ANop | k => AIns rid t k end
+          | _ => ANop
+          end, None)
+  | EvDelete rid t r _ _ _ =>
+    match get_r s rid with
+    | Some x =>
+      match delete_spec (rs_live x) t with
+      | DSOk _ => Some (ADel rid t, Some (match r with ROk _ => true | _ => false end))
+      | _ => Some (ANop, None)
+      end
+    | None => Some (ANop, None)
+    end
+  | _ => None
+  end.
+
+Definition check_arcs (pre : aview) (o : aop) (ret : option bool) (post : aview) : list finding :=
+  fl (same_shape (astep pre o) post) FArcs []
+  ++ fl (own_b post) FArcs []
+  ++ match o, ret with
+     | ADel s t, Some real =>
+       if existsb (at_tmpl s t) pre then fl (Bool.eqb (a_del_returns s t pre) real) FArcs [t] else []
+     | _, _ => []
+     end.
+
+Definition step2 (S : fstate) (e : event) : fstate * list finding :=
+  match e with
+  | EvArcs post => (FSt (fs_routers S) post ANop None, check_arcs (fs_arcs S) (fs_pending S) (fs_ret S) post)
+  | EvEnd => (init_fstate, [])
+  | _ =>
+    let pend := pending_of (fs_routers S) e in
+    let '(s', fs) := step (fs_routers S) e in
+    (match pend with
+     | Some (o, r) => FSt s' (fs_arcs S) o r
+     | None => FSt s' (fs_arcs S) (fs_pending S) (fs_ret S)
+     end, fs)
+  end.
+
+Definition step_line (S : fstate) (line : bytes) : fstate * list finding :=
   match parse_line line with
-  | Some e => step s e
-  | None => (s, [(FBadLine, [line])])
+  | Some e => step2 S e
+  | None => (S, [(FBadLine, [line])])
   end.
 
 (* statistics for the evidence: for a search line (number of live routes that fit, number of
    returned parameters, number of live templates) *)
-Definition line_stats (s : state) (line : bytes) : option (N * N * N) :=
+Definition line_stats (S : fstate) (line : bytes) : option (N * N * N) :=
+  let s := fs_routers S in
   match parse_line line with
   | Some (EvSearch rid p (SRes r)) =>
     match get_r s rid with
